@@ -27,6 +27,7 @@ type Loaded struct {
 	errStringPtr types.Type
 	bigIntType   types.Type
 	ctxMarker    types.Type
+	reflMarker   types.Type
 	fset         *token.FileSet
 	overlay      map[string][]byte
 	srcHash      map[string]string
@@ -126,6 +127,7 @@ func loadProgram(pkgPaths []string) (*Loaded, error) {
 			l.bigIntType = t.Type()
 		}
 	}
+	l.reflMarker = types.NewNamed(types.NewTypeName(token.NoPos, nil, "nativeReflType", nil), types.NewStruct(nil, nil), nil)
 	l.ctxMarker = types.NewNamed(types.NewTypeName(token.NoPos, nil, "nativeCtx", nil), types.NewStruct(nil, nil), nil)
 	return l, nil
 }
